@@ -109,15 +109,17 @@ def main():
                      PRELUDE + G.SRC + CHECK_SRC + f"prob = {prob!r}\nopt, d, err = drive(prob, {calls!r})\nbad = check_rows(prob, opt, d, err)\nassert not bad, bad[:3]\n",
                      "MeritFunctionForMatch._clip_to_max_steps" if kind == "max_step" else "JacobianSolver.step")
     rac.section("disabled-knobs", "a knob disabled persistently, or only for one step() call (disable_vary / disable_vary_name / "
-                "enable_* of the others), or disabled and then changed by hand between two steps, is never written", "problems with >= 2 knobs",
+                "enable_* of the others), or disabled and then changed by hand between two steps, is never written; ids spelled as a list or as a bare "
+                "integer (0 and 1 included)", "problems with >= 2 knobs",
                 exhaustive=False)
     variants = [
-        ("persistent", ["opt.disable(vary=[{j}])", "opt.step(2)", "opt.solve()"]),
-        ("per-call disable_vary", ["opt.step(2, disable_vary=[{j}])"]),
+        ("persistent", ["opt.disable(vary={J})", "opt.step(2)", "opt.solve()"]),
+        ("per-call disable_vary", ["opt.step(2, disable_vary={J})"]),
         ("per-call disable_vary_name", ["opt.step(2, disable_vary_name=['k{j}'])"]),
-        ("step, disable, hand-change, step", ["opt.step(1)", "opt.disable(vary=[{j}])", "d.writes.clear(); dict.__setitem__(d, 'k{j}', 0.123456)", "opt.step(2)"]),
-        ("disable, hand-change, solve", ["opt.disable(vary=[{j}])", "dict.__setitem__(d, 'k{j}', -0.0625)", "opt.solve()"]),
-        ("per-call disable_target", ["opt.step(2, disable_target=[0], disable_vary=[{j}])"]),
+        ("step, disable, hand-change, step", ["opt.step(1)", "opt.disable(vary={J})", "d.writes.clear(); dict.__setitem__(d, 'k{j}', 0.123456)", "opt.step(2)"]),
+        ("disable, hand-change, solve", ["opt.disable(vary={J})", "dict.__setitem__(d, 'k{j}', -0.0625)", "opt.solve()"]),
+        ("per-call disable_target", ["opt.step(2, disable_target={T0}, disable_vary={J})"]),
+        ("enable the others, per call", ["opt.disable(vary=True)", "opt.step(2, enable_vary={OTHERS})"]),
     ]
     for n in range(N // 2):
         if rac.out_of_time(0.8):
@@ -126,7 +128,10 @@ def main():
         prob["kact"] = [True] * len(prob["k0"])
         j = rac.rng.randrange(len(prob["k0"]))
         vname, tmpl = rac.rng.choice(variants)
-        calls = [c.format(j=j) for c in tmpl]
+        # an id is given as a list of ids or as a bare integer (0 and 1 are ids like any other, not booleans)
+        bare = rac.rng.random() < 0.5
+        others = [i for i in range(len(prob["k0"])) if i != j]
+        calls = [c.format(j=j, J=(j if bare else [j]), T0=(0 if bare else [0]), OTHERS=(others[0] if bare and len(others) == 1 else others)) for c in tmpl]
         try:
             build(prob)
         except Exception:      # noqa
@@ -240,9 +245,10 @@ def main():
         kw = ", broyden=True" if broy else ""
         n2 = rac.rng.randint(1, 2)
         percall = rac.rng.random() < 0.4
+        jj = j if rac.rng.random() < 0.5 else [j]        # the id as a bare integer or as a list
         hand = [f"d['k{i}'] = {prob['k0'][i] + 0.013 * (i + 1)!r}" for i in range(len(prob["k0"])) if prob["kact"][i]]
-        calls = [f"opt.step(1{kw})"] + hand + ([f"opt.step({n2}{kw}, disable_target=[{j}])"] if percall
-                                               else [f"opt.disable(target=[{j}])", f"opt.step({n2}{kw})"])
+        calls = [f"opt.step(1{kw})"] + hand + ([f"opt.step({n2}{kw}, disable_target={jj})"] if percall
+                                               else [f"opt.disable(target={jj})", f"opt.step({n2}{kw})"])
         try:
             o1, d1, e1 = drive(prob, calls)
             o2, d2, e2 = drive(prob2, calls)
